@@ -99,7 +99,7 @@ def explore(mod, pid, args):
         if n_reported < 3 and not args.no_shrink and hasattr(mod, 'minimise'):
             try:
                 v = mod.minimise(v)
-            except Exception:
+            except (Exception, core.HarnessError, core.RunTimeout, core.BudgetExceeded):
                 print('  (minimisation failed: ' + traceback.format_exc(limit=2).strip().split('\n')[-1] + ')')
         path = core.write_replay(v)
         print(f"  {v['oracle']} [{v['key']}] seed={v.get('seed')} engine={v.get('engine')}: {v['msg'][:400]}")
